@@ -38,7 +38,10 @@ CHECKS = {
                      "token over all ten entry points got exactly one callback, none after ares_destroy, cancel and destroy "
                      "completed everything outstanding, the four query indexes agreed at every quiescent point, and "
                      "ASan/UBSan stayed silent, with callbacks starting requests and cancelling, hostile servers, socket "
-                     "faults and seeded reordering of replies vs. timers. Exploration: histories not generated are not covered.",
+                     "faults and seeded reordering of replies vs. timers; further stages: every send from the k-th on failing while "
+                     "requests wait on a failed and on a healthy server (enumeration over k and entry point), and completion "
+                     "callbacks that take seconds of virtual time with short-lived cached answers. Exploration: histories not "
+                     "generated are not covered.",
                 note="Trusts the simulator's socket/server model and gcc ASan/UBSan; single-threaded (threads: C11)."),
     "C02": dict(engine="legacy", category="exploration", design_ref="DESIGN.md §4 C02",
                 technique="runtime monitoring under ASan+UBSan+LSan (MSan and libFuzzer in the thorough tier): every decoding "
